@@ -213,7 +213,7 @@ def task_tables(a, env):
         gr, go = fl.run_op(cr, op, xr, yr), fl.run_op(co, op, xo, yo)
         if fam_outcome(gr) != fam_outcome(go):
             bad(op, {"x": None if xm is None else fl.el_json(cr, xm),
-                     "y": fl.el_json(cr, ym) if yk == "elem" else ym, "yk": yk}, gr, go)
+                     "y": fl.el_json(cr, ym) if yk == "elem" else fl.jint(ym), "yk": yk}, gr, go)
 
     cmp("one", None)
     cmp("zero", None)
@@ -222,14 +222,14 @@ def task_tables(a, env):
     else:
         small_exps = [0, 1, 2, 3, q - 1, q]
         more_exps = sorted(set(range(4, 17)) | {p, p * p, q + 1})
-    huge = [2 ** 700 + 1, 2 ** 4400 + 1]
+    huge = [2 ** 700 + 1, 2 ** 4400 + 1, fl.IntSub(q + 2), 10 ** 4400 + 7]
     for i, xm in enumerate(A):
         cmp("neg", xm)
         cmp("inv", xm)
         for n in small_exps + (more_exps if i < 12 else []):
             cmp("pow", xm, n, "exp")
         if i < 3:
-            for n in huge:
+            for n in huge if i < 2 else huge[:-1]:
                 cmp("pow", xm, n, "exp")
         # sgn0: optimized classes only have it; compare with the RFC loop
         r.ev += 1
@@ -314,12 +314,19 @@ def replay_table(a):
         exp = ("ok", fl.sgn0_rfc(co, xm))
         return None if got == exp else {"expected": exp, "observed": got}
     yk = args.get("yk")
-    ym = args.get("y")
+    ym = fl.unjint(args.get("y"))
     if yk == "elem":
         ym = fl.el_from(cr, ym)
         yr, yo = cr.lib(ym), co.lib(ym)
     else:
         yr = yo = _raw_operand(yk, ym)
+        if yk == "int":
+            for yf in fl.int_forms(yr):
+                gr = fl.run_op(cr, op, None if xm is None else cr.lib(xm), yf)
+                go = fl.run_op(co, op, None if xm is None else co.lib(xm), yf)
+                if fam_outcome(gr) != fam_outcome(go):
+                    return {"reference": gr, "optimized": go, "operand_type": type(yf).__name__}
+            return None
     gr = fl.run_op(cr, op, None if xm is None else cr.lib(xm), yr)
     go = fl.run_op(co, op, None if xm is None else co.lib(xm), yo)
     return None if fam_outcome(gr) == fam_outcome(go) else {"reference": gr, "optimized": go}
@@ -532,7 +539,7 @@ def task_bfs(a, env):
         if fam_outcome(gr) != fam_outcome(go):
             r.viol("C14:%s:%s:bfs:%s" % (curve, kind, op), ME + ":replay_bfs",
                    {"curve": curve, "group": grp, "op": op, "x": fl.el_json(cr, xm),
-                    "y": fl.el_json(cr, ym) if yk == "elem" else ym, "yk": yk}, gr, go)
+                    "y": fl.el_json(cr, ym) if yk == "elem" else fl.jint(ym), "yk": yk}, gr, go)
             return None
         if gr[0] == "ok" and not isinstance(gr[1], bool):
             return gr[1]
